@@ -31,12 +31,19 @@ func genCPK(t *rapid.T) CPKCase {
 	return c
 }
 
-func cpkOps(p multiparty.PublicKeyGenProtocol) aggOps[multiparty.PublicKeyGenShare] {
+func cpkOps(p multiparty.PublicKeyGenProtocol, c Common) aggOps[multiparty.PublicKeyGenShare] {
+	rng := c.junk()
 	return aggOps[multiparty.PublicKeyGenShare]{
 		clone: func(s multiparty.PublicKeyGenShare) multiparty.PublicKeyGenShare {
 			return multiparty.PublicKeyGenShare{Value: *s.Value.CopyNew()}
 		},
-		alloc: p.AllocateShare,
+		alloc: func() multiparty.PublicKeyGenShare {
+			s := p.AllocateShare()
+			if c.DirtyOut {
+				dirtyQP(s.Value, c.Params, rng)
+			}
+			return s
+		},
 		add: func(a, b multiparty.PublicKeyGenShare, out *multiparty.PublicKeyGenShare) error {
 			p.AggregateShares(a, b, out)
 			return nil
@@ -70,6 +77,7 @@ func runCPK(c CPKCase, rec *h.Rec) error {
 	}
 	params, n := w.params, w.n
 
+	junk := c.junk()
 	protos := make([]multiparty.PublicKeyGenProtocol, n)
 	crps := make([]multiparty.PublicKeyGenCRP, n)
 	shares := make([]multiparty.PublicKeyGenShare, n)
@@ -92,6 +100,12 @@ func runCPK(c CPKCase, rec *h.Rec) error {
 			return h.Failf("C14:CRS:parties-read-different-polynomials", "party %d read other reference polynomials than party 0 after the same %d+1 SampleCRP calls (CKG)", i, len(c.Pre))
 		}
 		shares[i] = protos[i].AllocateShare()
+		switch c.Receiver {
+		case 1:
+			dirtyQP(shares[i].Value, c.Params, junk)
+		case 2:
+			protos[i].GenShare(w.sks[i], protos[i].SampleCRP(junkCRS(c.Common)), &shares[i])
+		}
 		var in inputSnap
 		in.snap("secret-key", w.sks[i].Value)
 		in.snap("crp", crps[i].Value)
@@ -101,7 +115,7 @@ func runCPK(c CPKCase, rec *h.Rec) error {
 		}
 	}
 
-	ops := cpkOps(protos[0])
+	ops := cpkOps(protos[0], c.Common)
 	ref, _ := refAggregate(shares, ops)
 	got, err := runSched(shares, c.Sched, ops)
 	if err != nil {
@@ -115,6 +129,10 @@ func runCPK(c CPKCase, rec *h.Rec) error {
 	}
 
 	pk := rlwe.NewPublicKey(params)
+	if c.DirtyOut {
+		dirtyQP(pk.Value[0], c.Params, junk)
+		dirtyQP(pk.Value[1], c.Params, junk)
+	}
 	protos[n-1].GenPublicKey(got, crps[n-1], pk)
 
 	// pk0 + s*pk1 = sum of the parties' errors
@@ -150,14 +168,15 @@ func runCPK(c CPKCase, rec *h.Rec) error {
 	}
 
 	rec.Class(nClass(n))
+	rec.Class(c.receiverClass())
 	rec.Class(ringClass(c.Params))
 	rec.Class(c.Sched.descr())
 	rec.Classf("pre=%d", len(c.Pre))
 	if !disc {
 		rec.Class("functional-not-discriminating")
 	}
-	if c.Sched.nontrivial() {
-		rec.NonTrivial(fmt.Sprintf("ckg|%s|%s|%s|nP=%d|%s|pre=%d|shallow=%v", nClass(n), ringClass(c.Params), c.Sched.descr(), len(c.Params.P), sizeClass(c.Params.Q), len(c.Pre), c.Shallow))
+	if c.Sched.nontrivial() || c.Receiver != 0 || c.DirtyOut {
+		rec.NonTrivial(fmt.Sprintf("ckg|%s|%s|%s|nP=%d|%s|pre=%d|shallow=%v", nClass(n), ringClass(c.Params), c.Sched.descr(), len(c.Params.P), sizeClass(c.Params.Q), len(c.Pre), c.Shallow) + "|" + c.receiverClass())
 	}
 	return nil
 }
